@@ -40,8 +40,8 @@ theorem argCheck_noPanic (o : Oracles) (h : o.strict = true) (k : ArgCheck) (s :
     obtain ⟨b, hb⟩ := getFunc_strict o h s
     rw [hb]; cases b <;> exact ⟨_, rfl⟩
 
-theorem stringArg0_noPanic (e a : FE) (h0 : e.args[0]? = some a)
-    (ha : (a.op != fString || valIsStr a.value) = true) : NoPanic (stringArg0 e) := by
+theorem stringArg0_noPanic (e a : FE) (emptyAt : ErrAt) (h0 : e.args[0]? = some a)
+    (ha : (a.op != fString || valIsStr a.value) = true) : NoPanic (stringArg0 e emptyAt) := by
   simp only [stringArg0, argAt_of_get h0]
   by_cases hop : a.op = fString
   · have hv : valIsStr a.value = true := by simpa [hop] using ha
@@ -56,15 +56,15 @@ theorem leafFilter_noPanic (o : Oracles) (hs : o.strict = true) (e : FE) (hw : w
   unfold leafFilter
   unfold wfLeaf at hw
   cases hk : leafKind e.op with
-  | strArg check needVar =>
+  | strArg check needVar emptyAt =>
     simp only [hk] at hw
     cases h0 : e.args[0]? with
     | none => simp [h0] at hw
     | some a =>
       simp only [h0, Bool.and_eq_true] at hw
-      apply noPanic_lbind (stringArg0_noPanic e a h0 hw.1)
-      intro s
-      cases check o s with
+      apply noPanic_lbind (stringArg0_noPanic e a emptyAt h0 hw.1)
+      intro ls
+      cases check o ls.2 with
       | some msg => exact ⟨_, rfl⟩
       | none =>
         cases needVar with
@@ -101,13 +101,13 @@ theorem leafFilter_noPanic (o : Oracles) (hs : o.strict = true) (e : FE) (hw : w
 
 theorem operand_cases (a : FE) (h : wfOperand a = true) :
     (a.op = fString ∧ valIsStr a.value = true) ∨ (a.op = fInt ∧ valIsInt a.value = true) ∨
-    (a.op ≠ fString ∧ a.op ≠ fInt ∧ valIsStr a.value = true) := by
+    (a.op ≠ fString ∧ a.op ≠ fInt ∧ (!hasVar a.op || valIsStr a.value) = true) := by
   unfold wfOperand at h
   by_cases h1 : a.op = fString
   · simp [h1] at h; exact Or.inl ⟨h1, h⟩
   · by_cases h2 : a.op = fInt
     · simp [h2] at h; exact Or.inr (Or.inl ⟨h2, h⟩)
-    · simp [h1, h2] at h; exact Or.inr (Or.inr ⟨h1, h2, h⟩)
+    · simp only [h1, h2, if_false] at h; exact Or.inr (Or.inr ⟨h1, h2, h⟩)
 
 theorem rhsConstOf_ok (a : FE) (h : wfOperand a = true) :
     rhsConstOf a = .ok (decide (a.op = fString ∨ a.op = fInt)) := by
@@ -129,12 +129,12 @@ theorem strBoth_noPanic (a b : FE) (ha : valIsStr a.value = true) (hb : valIsStr
   obtain ⟨t, ht⟩ := asString_of_isStr hb
   simp only [strBoth, hs, ht]; exact ⟨_, rfl⟩
 
-theorem operand_str_of_nonlit (a : FE) (h : wfOperand a = true) (h1 : a.op ≠ fString) (h2 : a.op ≠ fInt) :
-    valIsStr a.value = true := by
-  rcases operand_cases a h with ⟨ho, _⟩ | ⟨ho, _⟩ | ⟨_, _, hv⟩
+theorem operand_str_of_nonlit (a : FE) (h : wfOperand a = true) (h1 : a.op ≠ fString) (h2 : a.op ≠ fInt)
+    (hv : hasVar a.op = true) : valIsStr a.value = true := by
+  rcases operand_cases a h with ⟨ho, _⟩ | ⟨ho, _⟩ | ⟨_, _, hs⟩
   · exact absurd ho h1
   · exact absurd ho h2
-  · exact hv
+  · simpa [hv] using hs
 
 theorem operandVars_noPanic (strict : Bool) (lhs rhs : FE)
     (w0 : wfOperand lhs = true) (w1 : wfOperand rhs = true)
@@ -158,7 +158,7 @@ theorem operandVars_noPanic (strict : Bool) (lhs rhs : FE)
     obtain ⟨v1, e1⟩ := one rhs h1
     simp only [e0, e1]; exact ⟨_, rfl⟩
 
-theorem cmpCore_noPanic (strict : Bool) (op line : Nat) (lhs rhs : FE)
+theorem cmpCore_noPanic (strict : Bool) (hstrict : strict = true) (op line : Nat) (lhs rhs : FE)
     (w0 : wfOperand lhs = true) (w1 : wfOperand rhs = true)
     (h0 : (!hasVar lhs.op || valIsStr lhs.value) = true) (h1 : (!hasVar rhs.op || valIsStr rhs.value) = true) :
     NoPanic (cmpCore strict op line lhs rhs) := by
@@ -170,8 +170,9 @@ theorem cmpCore_noPanic (strict : Bool) (op line : Nat) (lhs rhs : FE)
     simp only []
     apply noPanic_lbind
     · by_cases hl : lhs.op = fVarLine ∨ lhs.op = fVarValueInt ∨ lhs.op = fVarText
-      · have hls : valIsStr lhs.value = true := by
-          apply operand_str_of_nonlit lhs w0
+      · have hlv : hasVar lhs.op = true := by rcases hl with h | h | h <;> (rw [h]; decide)
+        have hls : valIsStr lhs.value = true := by
+          apply operand_str_of_nonlit lhs w0 _ _ hlv
           · rcases hl with h | h | h <;> (rw [h]; decide)
           · rcases hl with h | h | h <;> (rw [h]; decide)
         simp only [hl, if_true]
@@ -179,20 +180,27 @@ theorem cmpCore_noPanic (strict : Bool) (op line : Nat) (lhs rhs : FE)
         · simp only [hc, decide_true, if_true]; exact strOnly_noPanic lhs hls
         · simp only [hc, decide_false, Bool.false_eq_true, if_false]
           split
-          · exact strBoth_noPanic lhs rhs hls
-              (operand_str_of_nonlit rhs w1 (fun h => hc (Or.inl h)) (fun h => hc (Or.inr h)))
+          · rename_i heq
+            exact strBoth_noPanic lhs rhs hls
+              (operand_str_of_nonlit rhs w1 (fun h => hc (Or.inl h)) (fun h => hc (Or.inr h)) (heq ▸ hlv))
           · exact ⟨_, rfl⟩
       · simp only [hl, if_false]
         by_cases hs : lhs.op = fVarTypeSize
-        · have hls : valIsStr lhs.value = true := by
-            apply operand_str_of_nonlit lhs w0 <;> (rw [hs]; decide)
+        · have hlv : hasVar lhs.op = true := by rw [hs]; decide
+          have hls : valIsStr lhs.value = true := by
+            apply operand_str_of_nonlit lhs w0 _ _ hlv <;> (rw [hs]; decide)
           simp only [hs, if_true]
           by_cases hc : rhs.op = fString ∨ rhs.op = fInt
           · simp only [hc, decide_true, if_true]; exact strOnly_noPanic lhs hls
           · simp only [hc, decide_false, Bool.false_eq_true, if_false]
             split
-            · exact strBoth_noPanic lhs rhs hls
-                (operand_str_of_nonlit rhs w1 (fun h => hc (Or.inl h)) (fun h => hc (Or.inr h)))
+            · rename_i heq
+              have hrv : hasVar rhs.op = true := by
+                subst hstrict
+                have h : rhs.op = fVarTypeSize := by simpa [hs] using heq
+                rw [h]; decide
+              exact strBoth_noPanic lhs rhs hls
+                (operand_str_of_nonlit rhs w1 (fun h => hc (Or.inl h)) (fun h => hc (Or.inr h)) hrv)
             · exact ⟨_, rfl⟩
         · simp only [hs, if_false]; exact ⟨_, rfl⟩
     · intro _; exact ⟨_, rfl⟩
@@ -204,7 +212,7 @@ theorem operand_var_str (a : FE) (h : wfOperand a = true) : (!hasVar a.op || val
     simp [this]
   · have : hasVar a.op = false := by rw [ho]; decide
     simp [this]
-  · simp [hv]
+  · exact hv
 
 theorem newFilter_noPanic (o : Oracles) (hs : o.strict = true) :
     ∀ (fuel : Nat) (e : FE), wfFE fuel e = true → NoPanic (newFilter o fuel e) := by
@@ -287,8 +295,8 @@ where
             simp only [argAt_of_get h0, argAt_of_get h1]
             apply noPanic_lbind
             · exact noPanic_ite
-                (cmpCore_noPanic _ _ _ a1 a0 hrest.2 hrest.1 (operand_var_str a1 hrest.2) (operand_var_str a0 hrest.1))
-                (cmpCore_noPanic _ _ _ a0 a1 hrest.1 hrest.2 (operand_var_str a0 hrest.1) (operand_var_str a1 hrest.2))
+                (cmpCore_noPanic _ hs _ _ a1 a0 hrest.2 hrest.1 (operand_var_str a1 hrest.2) (operand_var_str a0 hrest.1))
+                (cmpCore_noPanic _ hs _ _ a0 a1 hrest.1 hrest.2 (operand_var_str a0 hrest.1) (operand_var_str a1 hrest.2))
             · intro _; exact ⟨_, rfl⟩
     · have hb' : isBinaryExpr e.op = false := by cases h : isBinaryExpr e.op <;> simp_all
       simp only [hb', Bool.false_eq_true, if_false] at hrest ⊢
